@@ -979,3 +979,35 @@ fn headers_eos_content_length(is_request: bool) {
 }
 pub fn c13_len_headers_eos_request() { headers_eos_content_length(true) }
 pub fn c13_len_headers_eos_response() { headers_eos_content_length(false) }
+
+/// C19.release through the window-update queue: a stream that has closed, lost its last
+/// handle and was only kept alive by its place in `pending_window_updates` must be
+/// released (record removed) when the connection drains that queue - nothing else will
+/// ever look at it again.
+pub fn c19_release_via_window_update_queue() {
+    let c = cfg();
+    let mut recv = Recv::new(peer::Dyn::Client, &c);
+    let mut counts = Counts::new(peer::Dyn::Client, &c);
+    let mut store = Store::new();
+    let id = StreamId::from(ID);
+    let mut stream = Stream::new(id, 0, 0);
+    stream.state = st_h::state_of_shape(6, id); // Closed(EndStream)
+    stream.ref_count = 0;
+    stream.is_pending_window_update = true;
+    // released credit above the threshold, as left by release_capacity before the handle was dropped
+    fc_h::set(&mut stream.recv_flow, 100, 60_000);
+    let key = store_h::insert_slab_only(&mut store, stream); // already unlinked from the id map
+    store_h::queue_set_single(&mut recv.pending_window_updates, key);
+    let mut codec = mk_codec::<Prioritized<SymBuf>>(Mock::new([0; EXP], 0, 0));
+    let r = recv.send_stream_window_updates(&mut store, &mut counts, &mut codec);
+    assert!(matches!(r, Ok(BufferStatus::Complete)));
+    assert!(codec_buffered(&codec).is_empty(), "WINDOW_UPDATE sent for a stream that no longer receives");
+    assert!(pending_window_updates_empty(&recv));
+    assert!(!store_h::slab_contains(&store, key) && store_h::slab_len(&store) == 0,
+        "C19: closed, unreferenced stream popped from its last queue but never released (leaked for the life of the connection)");
+    kani::cover!(true, "end");
+    std::mem::forget(codec);
+    std::mem::forget(store);
+    std::mem::forget(recv);
+    std::mem::forget(counts);
+}
